@@ -17,6 +17,10 @@ def _lat(spec):
     return ac.record_lattice(spec)
 
 
+def _band(spec):
+    return ac.record_band(spec)
+
+
 def run(tier):
     V = common.Verdict(PID, tier, "model_checking")
     sd = common.seed()
@@ -67,6 +71,20 @@ def run(tier):
     # real schedulers x Kaiser windows: stored window sums for two side-lobe levels analysed in one process
     from . import _result_common as R
     R.run_traces(V, PID, tier, sd, lambda rnd: [("refbin",), ("winsum", rnd.choice([60, 90]), rnd.choice([120, 200]), rnd.choice([60, 150]))], n_quick=8, n_thorough=40)
+    # band restriction on real plans, with and without a forced bin count
+    bspecs = [dict(seed=rnd.randrange(2 ** 31), N=rnd.choice([1500, 4000]), mode=["auto", "csd"][k % 2], sched=["ltf", "lpsd", "vectorized_ltf"][k % 3],
+                   order=rnd.choice([0, 1]), backend=["numba", "numpy"][k % 2], Kdes=rnd.choice([5, 20]), Lmin=1 if k % 3 == 1 else rnd.choice([1, 32]), Jdes=rnd.choice([40, 90]),
+                   bands=[(3, 10), (0, 0), (5, 5), (0.05, 0.4), (0.2, 0.2000001), (0.9, 1.0), (2.0, 3.0)]) for k in range(6 if tier == "quick" else 30)]
+    btr = common.pmap(_band, bspecs, chunksize=1)
+    bvd, bres = traces.validate("BandTrace", f"{PID}_band", btr)
+    V.model(bres, "BandTrace.tla (band-restricted vs unrestricted analyses, forced and unforced bin count)")
+    V.add("traces_validated_against_impl", len(btr))
+    for t, v in zip(btr, bvd):
+        V.case(t["meta"], True)
+        for (l, clause) in v:
+            e = t["ev"][l - 1]
+            V.violation(f"{PID}|band|{clause}|force={e['force']}", {"kind": "band_trace", "spec": t["meta"], "event": l,
+                                                                  "message": f"BandTrace rejected {e} (band #{(l - 1) % len(t['meta']['bands'])} of {t['meta']}): {clause}"})
     V.assumptions += ["plans and windows are injected through the public scheduler=/win= callables; frequencies are the lattice angles (w = 0, pi/3, pi/2, 2pi/3, pi) so that the reference estimator is exact",
                       "Kaiser construction and real schedulers x real windows are bound by shims in the C05 thorough tier / C12"]
     return V.finish(rule="scenarios = terminal states of Analyzer.tla (plan templates x start-vector variants x frequency rotations x records x windows x orders x modes x bands) + seeded random single-bin requests; non-trivial = scenario without plan error")
